@@ -15,6 +15,7 @@ pub const COMMON_ASSUMPTIONS: &[&str] = &[
 
 pub mod c01;
 pub mod c02;
+pub mod c04;
 pub mod c07;
 
 pub fn all() -> Vec<Prop> {
@@ -22,6 +23,9 @@ pub fn all() -> Vec<Prop> {
         c01::prop(),
         c02::prop_c02(),
         c02::prop_c03(),
+        c04::prop_c04(),
+        c04::prop_c05(),
+        c04::prop_c06(),
         c07::prop(),
     ]
 }
